@@ -98,6 +98,29 @@ def _locked(fn):
 
 
 @_locked
+def gen_deps(targets):
+    """names of the generated modules (PoorModel.Gen.X -> 'X') in the import closure of the Lean modules `targets`"""
+    import re as _re
+    seen, todo, out = set(), list(targets), set()
+    while todo:
+        m = todo.pop()
+        if m in seen:
+            continue
+        seen.add(m)
+        if m.startswith("PoorModel.Gen."):
+            out.add(m.split(".")[-1])
+            continue
+        path = os.path.join(LEAN, *m.split(".")) + ".lean"
+        try:
+            src = open(path).read()
+        except OSError:
+            continue
+        for x in _re.findall(r"^import\s+(\S+)", src, _re.M):
+            if x.startswith(("PoorModel", "PoorProofs")):
+                todo.append(x)
+    return out
+
+
 def regenerate():
     """Run the translator: /repo/poorwsgi/*.py -> lean/PoorModel/Gen/*.lean."""
     from translator import gen
@@ -266,6 +289,16 @@ def run_check(prop, tier="quick", seed=0, replay=None):
     except Exception as err:  # translator failed closed
         gen_info = {"error": repr(err)}
         broken.append("translator: " + repr(err))
+    else:
+        # a generator that failed closed concerns the properties whose theorems are stated over its file (the import
+        # closure of their Lean targets); the others build against the file's last content
+        deps = gen_deps(getattr(mod, "LEAN_TARGETS", [])) | set(getattr(mod, "GEN_DEPS", []))
+        for fname, meta in sorted(gen_info.items()):
+            if isinstance(meta, dict) and "error" in meta:
+                if fname[:-5] in deps:
+                    broken.append("translator (%s): %s" % (fname, meta["error"]))
+                else:
+                    notes.append("translator (%s) failed closed; not used by this property: %s" % (fname, meta["error"]))
     targets = list(getattr(mod, "LEAN_TARGETS", [])) + ["driver"]
     ok, log = lake_build(targets)
     if ok is None:
